@@ -233,6 +233,8 @@ class ExprMixin:
             return SV("cls", name)
         if name in ("warnings", "json", "zipfile", "io", "random"):
             return SV("extmod", name)
+        if name == "attrgetter":  # operator.attrgetter("x"): a pure callable of one argument
+            return SV("func", ("builtin", "attrgetter"))
         fq = self.resolve_global_function(name)
         if fq:
             return SV("func", ("repo", fq))
